@@ -164,6 +164,23 @@ CLAIMED = {
             "note placements obtained from detokenise on every prefix, the pitch and the circle-of-fifths position of "
             "Theory, and for tokenise output in-bar time and monotone times.",
             "Bounded model scope (<=2 notes, 2 tracks, ppqn 24); valid pieces keep every tokenised event on the even-tick grid on which greedy rest decomposition over the step sizes is total; token strings are parsed only through TokenisationPrefixes for the reference-stream diagnostic.", "5 (C19)"),
+    "C16": ("Alias", "TLC model check of Alias.tla (heap of message cells, derivation and in-place / structural mutation; "
+            "Independent, NoSharedCells) + derivation route x side x operation history executed on real objects + TLC trace "
+            "validation",
+            "TLC explores every history of <=6 steps over <=3 objects (reads, in-place and structural mutators on either view, "
+            "copy and split derivations) and checks that every object shows its own content through both views; the as-built "
+            "sharing switch is refuted. On the real code all 8 derivation routes x both sides x every history of 1-2 of 18 "
+            "operations are executed; both views of every sequence of both sides are read on deep copies before and after, "
+            "and TLC requires the untouched side unchanged in both views, views in agreement, and copies equal at derivation.",
+            "merge and concatenate share messages with their arguments by design of the library and are outside C16.", "4 (C16)"),
+    "C11": ("TickTypes", "TLC model check of TickTypes.tla (numeric-kind abstraction, integer-closed operations, defect switch) + "
+            "every history of its 21 operations executed on integer-tick inputs + TLC trace validation of the observed kinds",
+            "The model states which operations are in scope and that each is integer-closed; TLC refutes the as-built "
+            "true-division padding switch. All histories of length <=2 (thorough 3) and random longer ones run on three "
+            "integer-tick input families; after every step the Python type of every time value in both views of every "
+            "live sequence and the numeric fields of every emitted token are logged, and TLC takes the operation and "
+            "requires the kinds to stay {int}, tokens in the vocabulary and views readable.",
+            "Kinds are observed as Python type names (bool / numpy scalars would be reported under their own names).", "4 (C11)"),
 }
 PENDING = {}
 props = [json.loads(l) for l in open(V / "properties.jsonl")]
